@@ -45,6 +45,7 @@ def dispatch (line : String) : String :=
   | "C03" :: "typepath" :: rest => TypePath.handle ("typepath" :: rest)
   | "C03" :: "boxing" :: rest => Boxing.handle ("boxing" :: rest)
   | "C03" :: "rusttype" :: rest => RustType.handle ("rusttype" :: rest)
+  | "C03" :: "builder" :: rest => RustType.handle ("builder" :: rest)
   | "C03" :: rest => Idents.handle rest
   | "C04" :: "emit" :: rest => Emit.handle Gen.Keywords.escaped ("emit" :: rest)
   | "C04" :: rest => Call.handle rest
